@@ -23,6 +23,7 @@ pub struct RefTrain {
     pub label_wire: Vec<u8>,
     pub lt: u8,
     pub payload: Vec<u8>,
+    pub exts: Vec<(u16, Vec<u8>)>,
 }
 
 /// reference receiver: what the arrival sequence defines, nothing implementation specific
@@ -52,7 +53,7 @@ impl RefRx {
             Kind::First => {
                 let f = p.frag_id.unwrap();
                 if matches!(real, DecapOut::Fragmented { .. }) {
-                    self.open.insert(f, RefTrain { total: p.total_len.unwrap(), pt: p.pt.unwrap_or(0), label_wire: p.label.clone(), lt: p.lt, payload: p.payload.clone() });
+                    self.open.insert(f, RefTrain { total: p.total_len.unwrap(), pt: p.pt.unwrap_or(0), label_wire: p.label.clone(), lt: p.lt, payload: p.payload.clone(), exts: p.exts.clone() });
                 }
                 // a rejected first fragment: the older train (if any) is kept as the candidate
                 if delivered {
@@ -72,6 +73,11 @@ impl RefRx {
                 }
                 if delivered {
                     v.push(("delivers-at-intermediate".into(), format!("an intermediate fragment yields a delivered PDU: {}", real.brief())));
+                }
+                if let (DecapOut::Fragmented { meta, .. }, Some(t)) = (real, self.open.get(&f)) {
+                    if meta.exts != t.exts {
+                        v.push(("fragment-extensions-differ".into(), format!("intermediate fragment reported with extensions {:?}, first fragment carried {:?}", meta.exts, t.exts)));
+                    }
                 }
             }
             Kind::End => {
@@ -95,6 +101,9 @@ impl RefRx {
                             }
                             if meta.pt != t.pt {
                                 v.push(("delivered-ptype-differs".into(), format!("delivered protocol type {:#06x}, first fragment carried {:#06x}", meta.pt, t.pt)));
+                            }
+                            if meta.exts != t.exts {
+                                v.push(("delivered-extensions-differ".into(), format!("delivered extension list {:?}, first fragment carried {:?}", meta.exts, t.exts)));
                             }
                             if t.lt != 3 && meta.label.bytes() != t.label_wire {
                                 v.push(("delivered-label-differs".into(), format!("delivered label {}, first fragment carried {}", meta.label.short(), hex(&t.label_wire))));
@@ -170,7 +179,14 @@ fn real_trains(tier: Tier) -> Vec<RealTrain> {
             let k1 = p / f;
             let mut buf = vec![0u8; 7 + lw + k1];
             let fid = (li as u8) * 3 + 1;
-            let EncOut::Fragmented(n, mut ctx) = do_encap(&mut enc, &pd, fid, 0x86DD, l, &mut buf) else { continue };
+            // every second shape is sent through encap_ext with one optional extension (2 data bytes)
+            let with_ext = (p + f + li) % 2 == 1;
+            let exts: Vec<(u16, Vec<u8>)> = if with_ext { vec![(0x0202, vec![0xE1, 0xE2])] } else { vec![] };
+            if with_ext {
+                buf = vec![0u8; 7 + lw + k1 + 4];
+            }
+            let first = if with_ext { do_encap_ext(&mut enc, &pd, fid, 0x86DD, l, &mut buf, &exts) } else { do_encap(&mut enc, &pd, fid, 0x86DD, l, &mut buf) };
+            let EncOut::Fragmented(n, mut ctx) = first else { continue };
             let mut pkts = vec![buf[..n].to_vec()];
             for j in 1..f {
                 let rem = p - ctx.pos as usize;
@@ -190,7 +206,7 @@ fn real_trains(tier: Tier) -> Vec<RealTrain> {
                     _ => break,
                 }
             }
-            v.push(RealTrain { desc: format!("pdu_len={} label={} fragments={} frag_id={}{}", p, lk, pkts.len(), fid, if crc_only_end { " crc-only-end" } else { "" }), prefix, pkts, pdu: pd });
+            v.push(RealTrain { desc: format!("pdu_len={} label={} fragments={} frag_id={}{}", p, lk, pkts.len(), fid, if crc_only_end { " crc-only-end" } else { "" }).replace("fragments=", if with_ext { "ext=0x0202 fragments=" } else { "fragments=" }), prefix, pkts, pdu: pd });
         }
     }
     v
@@ -509,6 +525,18 @@ fn b_alphabet() -> Vec<(String, Vec<u8>)> {
     v.push(("end-id0-crc-only-matching-overshoot8".to_string(), Desc::end(0, &[], crc_ref(tot(L3A), 0x0800, &L3A.bytes(), &over)).print()));
     v.push(("end-id0-crc-only-matching-6-of-dup".to_string(), Desc::end(0, &[], crc_ref(tot(L3A), 0x0800, &L3A.bytes(), &over1)).print()));
     // a first fragment announcing a total length smaller than protocol type + label, and its CRC-only end
+    // label accounting: a complete packet to set the receiver's label memory, a re-use first fragment whose
+    // total length COUNTS a 3-byte label (trailer = CRC over that label), and an explicit-label first fragment
+    // whose total length does NOT count its label (trailer = CRC over an empty label)
+    v.push(("complete-3A".to_string(), Desc::complete(L3A, 0x0800, &[0x7A]).print()));
+    v.push(("first-X-id0-reuse-total-counts-label".to_string(), Desc::first(Lbl::ReUse, 0x0800, 0, tot(L3A), &x[..2]).print()));
+    v.push(("end-X-id0-crc-with-label".to_string(), Desc::end(0, &x[2..], crc_ref(tot(L3A), 0x0800, &L3A.bytes(), &x)).print()));
+    v.push(("first-X-id0-3A-total-without-label".to_string(), Desc::first(L3A, 0x0800, 0, tot(Lbl::Bcast), &x[..2]).print()));
+    v.push(("end-X-id0-crc-without-label".to_string(), Desc::end(0, &x[2..], crc_ref(tot(Lbl::Bcast), 0x0800, &[], &x)).print()));
+    // a first fragment carrying an optional extension
+    let mut d = Desc::first(L3A, 0x0202, 1, tot(L3A), &x[..2]);
+    d.ext_bytes = vec![0xE1, 0xE2, 0x08, 0x00];
+    v.push(("first-X-id1-opt-ext".to_string(), d.print()));
     v.push(("first-X-id0-total1".to_string(), Desc::first(L3A, 0x0800, 0, 1, &x[..2]).print()));
     v.push(("end-id0-crc-only-matching-total1".to_string(), Desc::end(0, &[], crc_ref(1, 0x0800, &L3A.bytes(), &x[..2])).print()));
     v
@@ -557,7 +585,7 @@ pub fn b_sys() -> BSys {
 
 pub fn run(tier: Tier) -> i32 {
     let rep = Report::new("C03", tier);
-    rep.set_rule("A: fragment trains from the real encapsulator (PDUs of 5/12/40 bytes x labels 6B/3B/broadcast/re-use x 2..5 fragments) with EVERY single fault of the menu (drop, duplicate, swap, every single-bit flip incl. header bits, every burst pattern up to 10 (thorough 14) bits at every bit offset, truncation at every byte, every fragment id value, listed total-length and CRC replacements) and all ordered pairs of drop/dup/swap/bit-flip faults (quick: first four trains), plus every structural/length/frag-id fault (once and twice) followed by a recomputation of the CRC trailer over what is actually received; trains include ones whose end fragment carries the CRC alone; B: breadth-first search over all sequences of 21 hand-built, syntactically valid fragments (incl. CRC-only end fragments whose trailer matches a concatenation of the wrong length) (trains of two different PDUs spliced on one fragment id, another id, an aliasing id, right/wrong CRC and lengths) to closure with state merging on (receiver snapshot, reference state). Oracle in both: exact 'delivered only if' evaluated on the received bytes by a reference receiver + reference CRC. distinct = fault class x deliveries / packet x outcome");
+    rep.set_rule("A: fragment trains from the real encapsulator (PDUs of 5/12/40 bytes x labels 6B/3B/broadcast/re-use x 2..5 fragments) with EVERY single fault of the menu (drop, duplicate, swap, every single-bit flip incl. header bits, every burst pattern up to 10 (thorough 14) bits at every bit offset, truncation at every byte, every fragment id value, listed total-length and CRC replacements) and all ordered pairs of drop/dup/swap/bit-flip faults (quick: first four trains), plus every structural/length/frag-id fault (once and twice) followed by a recomputation of the CRC trailer over what is actually received; trains include ones whose end fragment carries the CRC alone; B: breadth-first search over all sequences of 27 hand-built, syntactically valid fragments (incl. CRC-only end fragments whose trailer matches a concatenation of the wrong length) (trains of two different PDUs spliced on one fragment id, another id, an aliasing id, right/wrong CRC and lengths) to closure with state merging on (receiver snapshot, reference state). Oracle in both: exact 'delivered only if' evaluated on the received bytes by a reference receiver + reference CRC. distinct = fault class x deliveries / packet x outcome");
     part_a(&rep, tier);
     directed_long(&rep);
     let sys = b_sys();
